@@ -122,6 +122,11 @@ def build(case):
             ss_[:len(cands)] = cands
             spec.spike_samples = np.sort(ss_).astype(spec.spike_samples.dtype)
         spec.notes['seconds_only'] = True
+    if case['seed'][2] % 6 == 1 and spec.amplitudes is not None and spec.n_spikes > 6:
+        # a few spikes with a stored amplitude of exactly zero or below zero (failed fits): they are spikes like the others
+        iz_ = rng.permutation(spec.n_spikes)[:4]
+        spec.amplitudes[iz_[:2]] = 0
+        spec.amplitudes[iz_[2:]] = -1.5
     if spec.probes is not None:
         # 2-probe table following the merge convention: raw indices of probe 1 = local map + max(map of probe 0)
         nc = spec.n_channels
